@@ -258,3 +258,37 @@ func VerifC07_ProprietaryTwice(size int) {
 	verifNoGlobalWritesExcept("lorawan.macPayloadRegistry") // C10: no hidden package-level state is written
 	verifReach("done")
 }
+
+// History: a stream is decoded, then a proprietary CID is registered, then re-registered with another size; every
+// decode uses the size registered at that moment (no stale derived table).
+func VerifC07_ProprietaryHistory(size, size2 int) {
+	up := verifNondetBool("uplink")
+	cid := verifNondetU8("cid")
+	verifAssume(cid >= 128)
+	first := verifNondetBytes("first", 2)
+	_, _ = decodeDataPayloadToMACCommands(verifNondetBool("firstDir"), []Payload{&DataPayload{Bytes: first}})
+	for round, sz := range []int{size, size2} {
+		verifAssert(RegisterProprietaryMACCommand(up, CID(cid), sz) == nil, "proprietary: registration succeeds")
+		_ = round
+		p := verifNondetBytes("payload", sz)
+		stream := append(append([]byte{cid}, p...), byte(DevStatusReq))
+		out, err := decodeDataPayloadToMACCommands(up, []Payload{&DataPayload{Bytes: stream}})
+		if up {
+			// DevStatusReq is a downlink CID; in an uplink stream 0x06 is DevStatusAns (2 bytes): truncated
+			verifAssert(err != nil || len(out) >= 1, "proprietary: decode result is well formed")
+			if err != nil {
+				continue
+			}
+		}
+		verifAssert(err == nil, "proprietary: a registration made after earlier decodes is honoured")
+		verifAssert(len(out) == 2, "proprietary: framed by the size registered at the time of the decode")
+		mc, ok := out[0].(*MACCommand)
+		verifAssert(ok, "proprietary: element is a MACCommand")
+		if sz > 0 {
+			pp, ok := mc.Payload.(*ProprietaryMACCommandPayload)
+			verifAssert(ok, "proprietary: payload type")
+			verifAssert(verifBytesEq(pp.Bytes, p), "proprietary: payload bytes of the size registered at the time of the decode")
+		}
+	}
+	verifReach("done")
+}
